@@ -135,72 +135,105 @@ def cmpDumps (what : String) (pairs : List (String × Dump × Dump)) : Option St
 
 /-! ### service-level cases -/
 
-def judgeSvcCrash (topics ids : List String) (ops : List Op) (unint : Option Dump) (k m : Nat) (post : Bool)
-    (obs : List String) (acc : Acc) : Except Verdict Acc := do
-  let what := s!"crash {k} {m} {if post then "post" else "pre"}"
-  let micros := ((ops[k]?).map Op.micros).getD []
-  let j? : Option Nat := if m == 0 then (if post && k < ops.length then some micros.length else none) else txIndex Micro.isTx micros m post
+def levelsAre (lv : Lv) (ops : List Op) (keys : List (String × String)) : Bool :=
+  keys.all fun (T, id) => lv T id == lastLevel ops T id
+
+/-- One `crash`/`crash2` line of a service-level case: `cs` = the crash points `(k, m, post)`, each relative to the
+operations remaining after the previous one. -/
+def judgeSvcCrash (topics ids : List String) (fops : List FOp) (unint : Option Dump) (cs : List (Nat × Nat × Bool))
+    (what : String) (obs : List String) (acc : Acc) : Except Verdict Acc := do
+  -- walk the crash points on the model
+  let mut s : Svc := {}
+  let mut c : Svc := {}
+  let mut remaining := fops
+  let mut rec_ : List Op := []
+  let mut seen : List Op := []          -- everything the handlers/memory saw complete before the last crash (failed persists too)
+  let mut present := true
+  let mut windowKeys : List (String × String) := []
+  let mut lastDone := true
+  let mut classes : List String := []
+  for (k, m, post) in cs do
+    if present then
+      let micros := ((remaining[k]?).map FOp.micros).getD []
+      let j? : Option Nat := if m == 0 then (if post && k < remaining.length then some micros.length else none)
+                             else txIndex Micro.isTx micros m post
+      match j? with
+      | none => present := false
+      | some j =>
+        let done := j == micros.length
+        lastDone := done
+        c := fcrashAt s remaining k j
+        rec_ := rec_ ++ effective (remaining.take k ++ (if done then (remaining[k]?).toList else []))
+        seen := seen ++ (remaining.take k ++ (if done then (remaining[k]?).toList else [])).map (·.1)
+        let inWin := !post && (match micros[j]?, (if j == 0 then none else micros[j - 1]?) with
+          | some x, some (.notify ..) => x.isTx
+          | _, _ => false)
+        if inWin then
+          match (remaining[k]?).bind (fun f => f.1.id?.map fun i => (f.1.topic, i)) with
+          | some key => windowKeys := key :: windowKeys
+          | none => pure ()
+        classes := classes ++ [if m == 0 then "crash-after-op" else if post then "crash-post-commit" else
+                               if inWin then "crash-in-window" else "crash-pre-commit-silent"]
+        s := c.restart
+        remaining := remaining.drop (k + 1)
   if obs == ["none"] then
-    match j? with
-    | none => return acc.br "crash-point-absent"
-    | some _ => return acc.mismatch s!"{what}: the model has this crash point, the implementation had no such transaction"
+    if present then return acc.mismatch s!"{what}: the model has this crash point, the implementation had no such transaction"
+    else return acc.br "crash-point-absent"
   if obs == ["panic"] then throw (.specfail "restart-panics" what)
+  if obs == ["openerr"] then throw (.specfail "restart-fails" s!"{what}: the service does not open on the storage as it stood")
   let some ss := sections obs | return acc.mismatch s!"{what}: unparsable observation"
-  let some j := j? | return acc.mismatch s!"{what}: the implementation had a transaction the model does not have"
-  let done := j == micros.length
+  if !present then return acc.mismatch s!"{what}: the implementation had a transaction the model does not have"
+  let r := frun s remaining
   let resume := canon (sec ss "resume"); let rdisk := canon (sec ss "rdisk")
   let final := canon (sec ss "final"); let fdisk := canon (sec ss "fdisk")
   let toldb := canonLog (sec ss "toldb"); let tolda := canonLog (sec ss "tolda")
   let ids := dedup (ids ++ idsOf resume ++ idsOf rdisk ++ idsOf final ++ idsOf fdisk)
   let keys := keysOf topics ids
-  let rec_ := recorded ops k done
-  let surv := survived ops k done
+  let anyFail := fops.any (fun f => f.2 != 0)
+  let survDisk := rec_ ++ effective remaining            -- what the disk must hold at the end
+  let survMem := rec_ ++ remaining.map (·.1)              -- what the running service believes at the end
   -- 1. the property on the observed output
   let badDisk := keys.filter fun (T, i) =>
     lvOf rdisk T i != lastLevel rec_ T i || presentIn rdisk T i != recordExpected rec_ T i ||
-    lvOf fdisk T i != lastLevel surv T i || presentIn fdisk T i != recordExpected surv T i
+    lvOf fdisk T i != lastLevel survDisk T i || presentIn fdisk T i != recordExpected survDisk T i
   if !badDisk.isEmpty then
     throw (.specfail "disk-tracks-last-non-ok" s!"{what}: {showKeys badDisk} rdisk {renderDump rdisk} fdisk {renderDump fdisk}")
-  if !resumeOK ops k done (lvOf resume) keys then
+  if !levelsAre (lvOf resume) rec_ keys then
     throw (.specfail "resume-level" s!"{what}: resumed {renderDump resume}")
-  let live := keys.filter fun (T, _) => !dormant surv T
-  let expectFinal : Lv := match done, unint with
+  let live := keys.filter fun (T, _) => !dormant survMem T
+  let expectFinal : Lv := match cs.length == 1 && lastDone && !anyFail, unint with
     | true, some u => lvOf u
-    | _, _ => lastLevel surv
-  if !finalOK (lvOf final) expectFinal live then
+    | _, _ => lastLevel survMem
+  -- (with failed transactions in the history the running service may be ahead of or behind its disk by exactly
+  -- the failed operations; what that means for the final memory is left to the tie with the model)
+  if !anyFail && !finalOK (lvOf final) expectFinal live then
     throw (.specfail "same-final-state" s!"{what}: final {renderDump final}")
   let told := evsOf toldb ++ evsOf tolda
-  let hk := live.filter fun (T, i) => !silent surv T i
+  let hk := live.filter fun (T, i) => !silent (seen ++ remaining.map (·.1)) T i
   let badH := hk.filter fun (T, i) => lastTold told T i != lvOf final T i
-  let window := !post && (match ops[k]? with | some (.collect ..) => true | _ => false)
   let mut acc := acc
   if !badH.isEmpty then
-    let inflight : Option (String × String) := (ops[k]?).bind fun op => op.id?.map fun i => (op.topic, i)
-    -- the deviation clause: the crash falls in the window, only the id in flight is affected, and the violation is
-    -- exactly the one the transcribed code (the model) exhibits on this input
-    let c := crashAt {} ops k j
-    let r := run c.restart (ops.drop (k + 1))
+    -- deviation clause: only ids whose Collect was in flight in a notify→transaction window, or whose persist
+    -- failed, and exactly the violation the transcribed code (the model) exhibits on this input
+    let failedKeys := fops.filterMap fun f => if f.2 != 0 then f.1.id?.map (fun i => (f.1.topic, i)) else none
     let predicted := fun (key : String × String) => lastTold r.told key.1 key.2 != r.mem.level key.1 key.2
-    if window && badH.all (fun key => some key == inflight && predicted key) then
+    if badH.all (fun key => (windowKeys.contains key || failedKeys.contains key) && predicted key) then
       acc := { acc with known := acc.known <|> some ("notify-before-persist", s!"{what}: handlers of {showKeys badH} were told a level that never reached the disk") }
     else
       throw (.specfail "handlers-not-misled" s!"{what}: {showKeys badH} final {renderDump final} told {renderDump toldb} ++ {renderDump tolda}")
   -- 2. the tie: model = implementation
-  let c := crashAt {} ops k j
-  let r0 := c.restart
-  let r := run r0 (ops.drop (k + 1))
-  let mids := ids
   match cmpDumps what [
-      ("resume", resume, dumpOfStore r0.mem topics mids), ("rdisk", rdisk, dumpOfStore c.disk topics mids),
-      ("final", final, dumpOfStore r.mem topics mids), ("fdisk", fdisk, dumpOfStore r.disk topics mids),
+      ("resume", resume, dumpOfStore s.mem topics ids), ("rdisk", rdisk, dumpOfStore c.disk topics ids),
+      ("final", final, dumpOfStore r.mem topics ids), ("fdisk", fdisk, dumpOfStore r.disk topics ids),
       ("toldb", toldb, dumpOfTold c.told topics), ("tolda", tolda, dumpOfTold (r.told.drop c.told.length) topics)] with
   | some d => acc := acc.mismatch d
   | none => pure ()
-  acc := acc.br (if m == 0 then "crash-after-op" else if post then "crash-post-commit" else if window then "crash-in-window" else "crash-pre-commit-silent")
-  if !done && badH.isEmpty && window then acc := acc.br "window-harmless"
-  if keys.any (fun (T, i) => lvOf resume T i != 0) && k + 1 < ops.length then acc := { acc with nontrivial := true }
+  for cl in classes do acc := acc.br cl
+  if cs.length > 1 then acc := acc.br "two-crashes"
+  if !windowKeys.isEmpty && badH.isEmpty then acc := acc.br "window-harmless"
+  if keys.any (fun (T, i) => lvOf resume T i != 0) && !remaining.isEmpty then acc := { acc with nontrivial := true }
   if keys.any (fun (T, i) => lvOf resume T i != 0) then acc := acc.br "resume-non-ok"
-  if keys.any (fun (T, i) => lastLevel rec_ T i == 0 && lastLevel (ops.take k) T i != 0) then acc := acc.br "recovered-before-crash"
+  if keys.any (fun (T, i) => presentIn resume T i && lvOf resume T i == 0) then acc := acc.br "resume-ok-record"
   return acc
 
 def svcOpBranch (s : Svc) (op : Op) : String :=
@@ -211,8 +244,17 @@ def svcOpBranch (s : Svc) (op : Op) : String :=
   | .restoreTopic T => if s.closed T then "restore-closed" else "restore-live"
   | .deleteTopic _ => "deltopic"
 
+def parseCrash (ts : List String) : Option (List (Nat × Nat × Bool)) :=
+  let one (k m ph : String) : Option (Nat × Nat × Bool) := do
+    let k ← k.toNat?; let m ← m.toNat?
+    if ph == "pre" then pure (k, m, false) else if ph == "post" then pure (k, m, true) else none
+  match ts with
+  | ["crash", k, m, ph] => do pure [← one k m ph]
+  | ["crash2", k, m, ph, k2, m2, ph2] => do pure [← one k m ph, ← one k2 m2 ph2]
+  | _ => none
+
 def judgeSvc (topics : List String) (lines : Array String) : Verdict := Id.run do
-  let mut ops : List Op := []
+  let mut fops : List FOp := []
   let mut acc : Acc := {}
   let mut unint : Option Dump := none
   let mut ids : List String := []
@@ -222,36 +264,56 @@ def judgeSvc (topics : List String) (lines : Array String) : Verdict := Id.run d
     | "mode" :: _ => pure ()
     | ["uninterrupted"] =>
       let some ss := sections obs | return .mismatch "uninterrupted: unparsable observation"
-      let s := run {} ops
+      let s := frun {} fops
+      let ops := fops.map (·.1)
+      let eff := effective fops
       let mem := canon (sec ss "mem"); let disk := canon (sec ss "disk"); let told := canonLog (sec ss "told")
       let ids' := dedup (ids ++ idsOf mem ++ idsOf disk)
       let keys := keysOf topics ids'
-      let bad := keys.filter fun (T, i) => lvOf disk T i != lastLevel ops T i || presentIn disk T i != recordExpected ops T i
+      let bad := keys.filter fun (T, i) => lvOf disk T i != lastLevel eff T i || presentIn disk T i != recordExpected eff T i
       if !bad.isEmpty then return .specfail "disk-tracks-last-non-ok" s!"uninterrupted: {showKeys bad} disk {renderDump disk}"
-      -- without any crash: every live topic shows the last recorded level of every id
+      -- without any crash: every live topic shows the last level of every id (failed persists included: the
+      -- running service is ahead of its disk, which only matters at the next restart)
       let badM := keys.filter fun (T, i) => !dormant ops T && lvOf mem T i != lastLevel ops T i
-      if !badM.isEmpty then return .specfail "same-final-state" s!"uninterrupted: memory of {showKeys badM} is not the last recorded level: {renderDump mem}"
+      if !badM.isEmpty && !fops.any (fun f => f.2 != 0) then return .specfail "same-final-state" s!"uninterrupted: memory of {showKeys badM} is not the last level: {renderDump mem}"
       match cmpDumps "uninterrupted" [("mem", mem, dumpOfStore s.mem topics ids'), ("disk", disk, dumpOfStore s.disk topics ids'),
                                       ("told", told, dumpOfTold s.told topics)] with
       | some d => acc := acc.mismatch d
       | none => pure ()
       unint := some mem
-    | ["crash", k, m, ph] =>
-      let some k := k.toNat? | return .badop l
-      let some m := m.toNat? | return .badop l
-      if ph != "pre" && ph != "post" then return .badop l
-      match judgeSvcCrash topics ids ops unint k m (ph == "post") obs acc with
+    | ["stalebak"] =>
+      -- the storage as it stood when a process died during an earlier topic-store migration (its backup copy is
+      -- still lying around): the service must open on it
+      if obs == ["openerr"] then
+        return .specfail "restart-fails" "stalebak: a left-over <db>.v1.bak keeps the alert service from opening"
+      acc := acc.br "stale-backup-opens"
+    | "crash" :: _ | "crash2" :: _ =>
+      let some cs := parseCrash opT | return .badop l
+      match judgeSvcCrash topics ids fops unint cs (" ".intercalate opT) obs acc with
       | .ok a => acc := a
       | .error v => return v
     | _ =>
-      match parseOp opT with
+      let (fail, opT') : Nat × List String := match opT with
+        | "failtx" :: n :: rest => (n.toNat?.getD 99, rest)
+        | _ => (0, opT)
+      let isV1 := opT'.head? == some "v1"
+      let opT'' := if isV1 then "update" :: opT'.drop 1 else opT'
+      match parseOp opT'' with
       | some op =>
         if !topics.contains op.topic then return .badop s!"topic not declared in the mode line: {l}"
-        let s := run {} ops
-        acc := acc.br (svcOpBranch s op)
+        if isV1 && fops.any (fun f => !(match f.1 with | .update .. => true | _ => false)) then return .badop s!"v1 lines must come first: {l}"
         let ntx := (op.micros.filter Micro.isTx).length
-        if !obs.isEmpty && obs != ["tx", toString ntx] then acc := acc.mismatch s!"op {ops.length} ({l}): model has {ntx} transactions"
-        ops := ops ++ [op]
+        if fail > ntx || fail > 1 then return .badop s!"failtx: no such transaction: {l}"
+        let s := frun {} fops
+        acc := acc.br (if isV1 then "v1-migrated" else svcOpBranch s op)
+        if fail != 0 then acc := acc.br "persist-fails"
+        if !obs.isEmpty then
+          -- a failed persist must be reported to the caller, a successful one must not
+          let reported := obs.getLast? == some "err"
+          if reported != FOp.reportsError (op, fail) then
+            return .specfail "persist-failure-reported" s!"op {fops.length} ({l}): error reported = {reported}"
+          if obs.take 2 != ["tx", toString ntx] then acc := acc.mismatch s!"op {fops.length} ({l}): model has {ntx} transactions"
+        fops := fops ++ [(op, fail)]
         match op.id? with
         | some i => ids := dedup (ids ++ [i])
         | none => pure ()
@@ -291,36 +353,86 @@ def nodeOpBranches (cfg : Cfg) (w : World) (op : NOp) : List String :=
         (if a.isSome && n.isSome then "restore-anon-wins" else "restore-named-to-anon"),
        if emits cfg cur l then "emit" else if cfg.sco && cur == l then "suppressed-unchanged" else if cfg.noRec && l == 0 && cur != 0 then "suppressed-norecovery" else "quiet-ok"]
 
-def judgeNodeCrash (cfg : Cfg) (topics ids : List String) (ops : List NOp) (unint : Option Dump) (k m : Nat) (post : Bool)
-    (obs : List String) (acc : Acc) : Except Verdict Acc := do
-  let what := s!"crash {k} {m} {if post then "post" else "pre"}"
-  let b := nrun cfg {} (ops.take k)
-  let micros := ((ops[k]?).map (nplan cfg b)).getD []
-  let j? : Option Nat := if m == 0 then (if post && k < ops.length then some micros.length else none) else txIndex NMicro.isTx micros m post
+def judgeNodeCrash (cfg : Cfg) (topics ids : List String) (ops : List NOp) (unint : Option Dump)
+    (cs : List (Nat × Nat × Bool)) (what : String) (obs : List String) (acc : Acc) : Except Verdict Acc := do
+  -- walk the crash points on the model
+  let mut w : World := {}
+  let mut c : World := {}
+  let mut remaining := ops
+  let mut processed : List NOp := []      -- points completely processed before the last crash (if all crashes were at boundaries)
+  let mut present := true
+  let mut allDone := true
+  let mut split := false
+  let mut windowT : List (String × String) := []   -- (topic, id) told while its transaction had not committed
+  let mut inflightIds : List String := []
+  let mut classes : List String := []
+  for (k, m, post) in cs do
+    if present then
+      let b := nrun cfg w (remaining.take k)
+      let micros := ((remaining[k]?).map (nplan cfg b)).getD []
+      let j? : Option Nat := if m == 0 then (if post && k < remaining.length then some micros.length else none)
+                             else txIndex NMicro.isTx micros m post
+      match j? with
+      | none => present := false
+      | some j =>
+        let lastTx := (micros.drop j).all (fun x => !x.isTx)
+        let done := j == micros.length || (post && lastTx)
+        if !done then allDone := false
+        c := nrunMicros b (micros.take j)
+        processed := processed ++ remaining.take k ++ (if done then (remaining[k]?).toList else [])
+        let inflight := (remaining[k]?).bind NOp.id?
+        let nCollectTx := collectTxBefore micros micros.length
+        let doneCollectTx := collectTxBefore micros j
+        let thisSplit := !done && nCollectTx == 2 && doneCollectTx == 1
+        if thisSplit then split := true
+        let inWindow : Option String :=
+          if !post then
+            match micros[j]?, (if j == 0 then none else micros[j - 1]?) with
+            | some (.svc (.txPut T _)), some (.svc (.notify ..)) => some T
+            | some (.svc (.txDel T _)), some (.svc (.notify ..)) => some T
+            | _, _ => none
+          else none
+        if !done then
+          match inflight with
+          | some i => inflightIds := i :: inflightIds
+          | none => pure ()
+        match inWindow, inflight with
+        | some T, some i => windowT := (T, i) :: windowT
+        | _, _ => pure ()
+        let cls : String :=
+          if done then "crash-after-op" else if thisSplit then "crash-between-topics" else
+          match inWindow with
+          | some T => if T == anonName then "crash-in-window-anon" else "crash-in-window-named"
+          | none => if post then "crash-post-update" else "crash-pre-update"
+        classes := classes ++ [cls]
+        w := c.restart cfg
+        remaining := remaining.drop (k + 1)
   if obs == ["none"] then
-    match j? with
-    | none => return acc.br "crash-point-absent"
-    | some _ => return acc.mismatch s!"{what}: the model has this crash point, the implementation had no such transaction"
+    if present then return acc.mismatch s!"{what}: the model has this crash point, the implementation had no such transaction"
+    else return acc.br "crash-point-absent"
   if obs == ["panic"] then throw (.specfail "restart-panics" what)
+  if obs == ["openerr"] then throw (.specfail "restart-fails" s!"{what}: the service does not open on the storage as it stood")
   let some ss := sections obs | return acc.mismatch s!"{what}: unparsable observation"
-  let some j := j? | return acc.mismatch s!"{what}: the implementation had a transaction the model does not have"
-  let lastTx := (micros.drop j).all (fun x => !x.isTx)
-  let done := j == micros.length || (post && lastTx)
+  if !present then return acc.mismatch s!"{what}: the implementation had a transaction the model does not have"
+  let r0 := w
+  let r := nrun cfg r0 remaining
   let resume := canon (sec ss "resume"); let rdisk := canon (sec ss "rdisk")
   let final := canon (sec ss "final"); let fdisk := canon (sec ss "fdisk")
   let toldb := canonLog (sec ss "toldb"); let tolda := canonLog (sec ss "tolda")
   let ids := dedup (ids ++ idsOf resume ++ idsOf rdisk ++ idsOf final ++ idsOf fdisk)
   let keys := keysOf topics ids
   -- 1. the property on the observed output
-  -- after a restart the memory is what the disk says, non-OK only
+  -- after a restart the memory is what the disk says
   let badLoad := keys.filter fun (T, i) => lvOf resume T i != lvOf rdisk T i
   if !badLoad.isEmpty then throw (.specfail "resume-level" s!"{what}: memory after restart differs from disk at {showKeys badLoad}")
   let toldBefore := evsOf toldb
-  if done then
-    -- every id resumes, on every topic of the node, at the level last recorded (= last announced) for it
+  if allDone then
+    -- every crash fell after a completed point: every id resumes, on every topic of the node, at the level the
+    -- processed points left it at (= last announced), and ends where the uninterrupted run of all points ends
+    let allOps := processed ++ remaining
     let badR := keys.filter fun (T, i) => lvOf resume T i != lastTold toldBefore T i ||
-      lvOf resume T i != nodeLevel cfg.noRec (ops.take (k + 1)) i || lvOf final T i != nodeLevel cfg.noRec ops i
-    if !badR.isEmpty then throw (.specfail "resume-level" s!"{what}: {showKeys badR} resumed {renderDump resume} told {renderDump toldb}")
+      lvOf resume T i != nodeLevel cfg.noRec processed i || lvOf final T i != nodeLevel cfg.noRec allOps i
+    if !badR.isEmpty then throw (.specfail "resume-level" s!"{what}: {showKeys badR} resumed {renderDump resume} final {renderDump final} told {renderDump toldb}")
     match unint with
     | some u =>
       if !finalOK (lvOf final) (lvOf u) keys then
@@ -329,22 +441,11 @@ def judgeNodeCrash (cfg : Cfg) (topics ids : List String) (ops : List NOp) (unin
   let told := toldBefore ++ evsOf tolda
   let badH := keys.filter fun (T, i) => lastTold told T i != lvOf final T i
   let mut acc := acc
-  let nCollectTx := collectTxBefore micros micros.length
-  let doneCollectTx := collectTxBefore micros j
-  let inWindow : Option String :=   -- topic whose handlers were told while its transaction had not committed
-    if !post then
-      match micros[j]?, (if j == 0 then none else micros[j - 1]?) with
-      | some (.svc (.txPut T _)), some (.svc (.notify ..)) => some T
-      | some (.svc (.txDel T _)), some (.svc (.notify ..)) => some T
-      | _, _ => none
-    else none
-  let split := nCollectTx == 2 && doneCollectTx == 1
   if !badH.isEmpty then
-    let inflight := (ops[k]?).bind NOp.id?
-    if done then
+    if allDone then
       throw (.specfail "handlers-not-misled" s!"{what}: {showKeys badH} final {renderDump final} told {renderDump toldb} ++ {renderDump tolda}")
-    else if badH.all (fun (T, i) => some i == inflight && (split || inWindow == some T) &&
-        (let r := nrecover cfg {} ops k j; lastTold r.svc.told T i != r.svc.mem.level T i)) then
+    else if badH.all (fun (T, i) => inflightIds.contains i && (split || windowT.contains (T, i)) &&
+        lastTold r.svc.told T i != r.svc.mem.level T i) then
       if split then
         acc := { acc with known := acc.known <|> some ("two-topic-split", s!"{what}: event recorded on the anonymous topic only; {showKeys badH} end in a level their handlers were not told") }
       else
@@ -352,29 +453,22 @@ def judgeNodeCrash (cfg : Cfg) (topics ids : List String) (ops : List NOp) (unin
     else
       throw (.specfail "handlers-not-misled" s!"{what}: {showKeys badH} final {renderDump final} told {renderDump toldb} ++ {renderDump tolda}")
   -- 2. the tie
-  let c := ncrashAt cfg {} ops k j
-  let r0 := c.restart cfg
-  let r := nrun cfg r0 (ops.drop (k + 1))
   match cmpDumps what [
       ("resume", resume, dumpOfStore r0.svc.mem topics ids), ("rdisk", rdisk, dumpOfStore c.svc.disk topics ids),
       ("final", final, dumpOfStore r.svc.mem topics ids), ("fdisk", fdisk, dumpOfStore r.svc.disk topics ids),
       ("toldb", toldb, dumpOfTold c.svc.told topics), ("tolda", tolda, dumpOfTold (r.svc.told.drop c.svc.told.length) topics)] with
   | some d => acc := acc.mismatch d
   | none => pure ()
-  let cls : String :=
-    if done then "crash-after-op" else if split then "crash-between-topics" else
-    match inWindow with
-    | some T => if T == anonName then "crash-in-window-anon" else "crash-in-window-named"
-    | none => if post then "crash-post-update" else "crash-pre-update"
-  acc := acc.br cls
-  if keys.any (fun (T, i) => lvOf resume T i != 0) && k + 1 < ops.length then acc := { acc with nontrivial := true }
+  for cl in classes do acc := acc.br cl
+  if cs.length > 1 then acc := acc.br "two-crashes"
+  if keys.any (fun (T, i) => lvOf resume T i != 0) && !remaining.isEmpty then acc := { acc with nontrivial := true }
   if keys.any (fun (T, i) => lvOf resume T i != 0) then acc := acc.br "resume-non-ok"
   -- branches taken by the restarted run
-  let mut w := r0
-  for op in ops.drop (k + 1) do
-    for b in nodeOpBranches cfg w op do
+  let mut ww := r0
+  for op in remaining do
+    for b in nodeOpBranches cfg ww op do
       if b.startsWith "restore-" || b == "newgroup-restored" then acc := acc.br ("restarted-" ++ b)
-    w := nstep cfg w op
+    ww := nstep cfg ww op
   return acc
 
 def judgeNode (cfg : Cfg) (lines : Array String) : Verdict := Id.run do
@@ -402,11 +496,9 @@ def judgeNode (cfg : Cfg) (lines : Array String) : Verdict := Id.run do
       | some d => acc := acc.mismatch d
       | none => pure ()
       unint := some mem
-    | ["crash", k, m, ph] =>
-      let some k := k.toNat? | return .badop l
-      let some m := m.toNat? | return .badop l
-      if ph != "pre" && ph != "post" then return .badop l
-      match judgeNodeCrash cfg topics ids ops unint k m (ph == "post") obs acc with
+    | "crash" :: _ | "crash2" :: _ =>
+      let some cs := parseCrash opT | return .badop l
+      match judgeNodeCrash cfg topics ids ops unint cs (" ".intercalate opT) obs acc with
       | .ok a => acc := a
       | .error v => return v
     | _ =>
